@@ -43,7 +43,7 @@ def generate(rng, tier):
     thorough = tier == "thorough"
     seen = set()
 
-    def emit(f, types, nt=True):
+    def emit(f, types, nt=True, nblocks=0):
         h = hx(f)
         for route in "mf":
             c = f"walk {route} {h}"
@@ -55,6 +55,10 @@ def generate(rng, tier):
                 if c not in seen:
                     seen.add(c)
                     out.append((c, nt))
+                    # the same lookup after walking 1..n blocks forward (cursor parked anywhere, also at the end)
+                    if nt and nblocks:
+                        for k in sorted({1, 2, nblocks - 1, nblocks, nblocks + 1} - {0}):
+                            out.append((f"find {route} {h} {ty} {k}", nt))
 
     # malformed headers
     for f in [b"", b"s", b"sky", b"skyb", b"skyb\x00", b"skyb\x03", b"skyb\x01", b"skyb\x02", b"skyb\x02\x00",
@@ -65,7 +69,7 @@ def generate(rng, tier):
     for _ in range(n_small):
         f, blocks = rand_file(rng)
         types = sorted({b[0] for b in blocks} | {0, 1, 250})[:5]
-        emit(f, types, len(blocks) > 0)
+        emit(f, types, len(blocks) > 0, len(blocks))
         if len(f) <= 80:
             for cut in range(len(f)):
                 g = f[:cut]
@@ -73,7 +77,7 @@ def generate(rng, tier):
     for _ in range(60 if thorough else 8):
         f, blocks = rand_file(rng, big=True)
         types = sorted({b[0] for b in blocks} | {0, 2})[:4]
-        emit(f, types, len(blocks) > 0)
+        emit(f, types, len(blocks) > 0, len(blocks))
         for _ in range(6):
             emit(f[:rng.randint(0, len(f))], types[:2], True)
     return out
